@@ -254,3 +254,24 @@ def run(ctx):
         for bb, op in cmps:
             r7.fail('%s/raw-order/%s' % (b.nid, op), mirq.site(b, bb), 'two index arguments are ordered (%s) before value_to_idx normalises them: a negative index denotes a position from the end, so the order of the raw numbers is not the order of the positions' % op)
     r7.need(5)
+
+    # ---------------- R15.8
+    r8 = ctx.rule('R15.8', 'optional bounds (None = unbounded) are never ordered with the derived Option ordering (None < Some)')
+    OPTB = re.compile(r'^&*\s*(std|core)::option::Option<(usize|u64|&usize)>')
+    for b in mir.bodies:
+        if b.file not in ('src/builtin/sequence.rs', 'src/builtin/generators.rs'):
+            continue
+        bounds = [l for l in range(len(b.locals)) if OPTB.match((b.local_ty(l) or '').replace('&mut ', '&'))]
+        if not bounds:
+            continue
+        bad = []
+        for bb, t in b.calls():
+            sg = strip_generics(t.get('callee') or t.get('decl') or '')
+            if not re.search(r'(Ord>::(min|max|cmp|clamp)|PartialOrd>::(lt|le|gt|ge|partial_cmp)|Ord::(min|max|cmp|clamp)|PartialOrd::(lt|le|gt|ge|partial_cmp))$', sg):
+                continue
+            if any(op_place(a) is not None and op_place(a)['l'] in bounds for a in t['args']):
+                bad.append((bb, sg.split('::')[-1]))
+        r8.inst({'fn': b.nid, 'optional_bounds': len(bounds), 'ordered_as_options': [x[1] for x in bad]}, ok=not bad, kind=b.nid)
+        for bb, op in bad:
+            r8.fail('%s/option-order/%s' % (b.nid, op), mirq.site(b, bb), 'two optional bounds are combined with the derived ordering of Option, in which None is the smallest value; for a bound None means unbounded (the largest): an infinite end erases a finite one')
+    r8.need(3)
